@@ -25,6 +25,7 @@ type PropSpec struct {
 	Kinds    []string `json:"kinds"`     // obligation kinds counted for untagged obligations (default: all)
 	Sweep    []string `json:"sweep"`     // package path suffixes whose functions are swept for safety/lock obligations without contracts
 	Exclude  []string `json:"exclude"`   // unit keys excluded from the sweep
+	SweepAll bool     `json:"sweep_all"` // the sweep also verifies functions that have no contract (setup functions)
 	AlsoTags []string `json:"also_tags"` // obligations tagged with these properties count for this one too
 	Note     string   `json:"note"`
 }
@@ -230,7 +231,7 @@ func cmdCheck(argv []string) int {
 				continue
 			}
 			// functions without a contract are verified in context (inlined into their callers)
-			if _, ok := p.CS.Funcs[key]; !ok {
+			if _, ok := p.CS.Funcs[key]; !ok && !(ps.SweepAll && fn.Parent() == nil && fn.Synthetic == "" && fn.Blocks != nil) {
 				continue
 			}
 			if fn.Name() == "init" {
